@@ -356,7 +356,7 @@ class GlyphSet(_UFOBaseIO):
                 infoData = validateLayerInfoVersion3Data(infoData)
             # write file
             self._writePlist(LAYERINFO_FILENAME, infoData)
-        elif self._havePreviousFile and self.fs.exists(LAYERINFO_FILENAME):
+        elif self.fs.exists(LAYERINFO_FILENAME):
             # data empty, remove existing file
             self.fs.remove(LAYERINFO_FILENAME)
 
